@@ -20,7 +20,8 @@ package encoding
 //@   trusted_assigns nothing
 
 // The simple8b timestamp scheme stores delta/scale: the common scale must divide EVERY delta,
-// otherwise decoding returns different timestamps.
+// otherwise decoding returns different timestamps (C06: the timestamp a point was written with is the one returned).
+//@ prop C06 C07
 //@ func (*Time).encodingInit
 //@   abstract_mod
 //@   requires enc != nil && len(times) >= 3
@@ -35,6 +36,7 @@ package encoding
 //@     invariant p10(enc.scale) && enc.scale >= 1
 //@     invariant forall k int :: i < k && k < timesN ==> dv(enc.scale, enc.deltas[k])
 
+//@ prop C07
 // ---- integer column encoder: scheme selection (int.go)
 // simple8b can hold values up to 2^60-1 only: the scheme may be chosen only if EVERY zig-zag delta (the first
 // one included) fits, otherwise an accepted column cannot be encoded. The constant-delta scheme stores one
